@@ -530,6 +530,9 @@ def mesh_basis():
     def build(draw):
         k = draw(st.integers(1, 2))
         basis = [draw(gen.mesh_patterns(0 if draw(st.integers(0, 5)) == 0 else 1, 3)) for _ in range(k)]
+        if draw(st.integers(0, 3)) == 0:
+            # an element of four points shaded along full lines plus a few further boxes
+            basis.append([list(draw(gen.perm_of(4))), draw(gen.shadings(4, draw(st.sampled_from(["lines", "purelines", "sparse"]))))])
         if draw(st.integers(0, 2)) == 0:
             # several mesh patterns on one underlying permutation (incomparable shadings: none is redundant)
             first = basis[0]
